@@ -43,8 +43,12 @@ func (c *Client) search(numKind imapwire.NumKind, criteria *imap.SearchCriteria,
 	// servers even if we only send ASCII characters: the server then must
 	// decode encoded headers and Content-Transfer-Encoding before matching the
 	// criteria.
+	c.mutex.Lock()
+	utf8AcceptEnabled := c.enabled.Has(imap.CapUTF8Accept)
+	c.mutex.Unlock()
+
 	var charset string
-	if !c.Caps().Has(imap.CapIMAP4rev2) && !c.enabled.Has(imap.CapUTF8Accept) && !searchCriteriaIsASCII(criteria) {
+	if !c.Caps().Has(imap.CapIMAP4rev2) && !utf8AcceptEnabled && !searchCriteriaIsASCII(criteria) {
 		charset = "UTF-8"
 	}
 
